@@ -221,6 +221,45 @@ mod verif_c11 {
         assert!(matches!(v.contains(K(1), K(2), K(3), Some(K(8))), Ok(false)));
     }
 
+    /// a graph-name matcher of which only `matches` is known (no constant() hint): it accepts the default graph
+    /// iff `default`, a named graph iff `named`
+    pub struct SymGn {
+        pub default: bool,
+        pub named: bool,
+    }
+    impl crate::term::matcher::GraphNameMatcher for SymGn {
+        type Term = K;
+        fn matches<T2: Term + ?Sized>(&self, graph_name: GraphName<&T2>) -> bool {
+            match graph_name {
+                None => self.default,
+                Some(_) => self.named,
+            }
+        }
+    }
+
+    /// contract of GraphAsDataset::quads_matching for EVERY graph-name matcher: the graph's matching triples are
+    /// shown (as quads of the default graph) iff the matcher accepts the default graph, whatever else it accepts
+    //@STUBS
+    #[kani::proof]
+    #[kani::unwind(4)]
+    fn c11_graph_as_dataset_any_matcher() {
+        let g = GRec::default();
+        let v = GraphAsDataset::new(&g);
+        let m = SymGn { default: kani::any(), named: kani::any() };
+        let accepts_default = m.default;
+        let mut it = v.quads_matching([K(1)], [K(2)], [K(3)], m);
+        let first = it.next();
+        if accepts_default {
+            let q = first.unwrap().unwrap();
+            assert!(id(q.s()) == 1 && id(q.p()) == 2 && id(q.o()) == 3 && q.g().is_none());
+            assert!(it.next().is_none());
+        } else {
+            assert!(first.is_none());
+        }
+        kani::cover!(accepts_default);
+        kani::cover!(!accepts_default);
+    }
+
     /// mutable recording graph for GraphAsDataset's MutableDataset impl
     #[derive(Default)]
     pub struct MGRec {
